@@ -4,7 +4,7 @@ with every input drawn from a small finite domain the propagation decides each b
 outside the modelled subset evaluates to UNKNOWN and the caller reports it as not decided."""
 import ast
 
-from .srcmodel import dotted, unparse
+from .srcmodel import dotted, unparse, clone
 
 
 class Unknown:
@@ -90,7 +90,7 @@ class PE:
                     none = lambda x: None if isinstance(x, ast.Constant) and x.value is None else x
                     n.slice = ast.Slice(lower=none(a[0]) if len(a) > 1 else None, upper=none(a[1]) if len(a) > 1 else none(a[0]), step=none(a[2]) if len(a) == 3 else None)
                 return n
-        t = _S().visit(copy.deepcopy(e))
+        t = _S().visit(clone(e))
         ast.fix_missing_locations(t)
         return unparse(t)
 
